@@ -552,8 +552,18 @@ def jobs(tier):
     import random
     rng = random.Random(int(os.environ.get("VERIF_SEED", "0") or 0) * 7919 + (1 if tier == "quick" else 2))
     cheap = [n for n in names if "list" not in n and n not in ("open_rx_pipe0",)]
+    def weight(n):  # measured single-call fan-out (paths) - keeps every drawn history inside the path budget whatever the seed
+        return (21 if n.startswith("open_rx_pipe") else 15 if n == "interrupt_config" else 8 if "list" in n else
+                4 if n in ("close_rx_pipe", "data_rate") else 3 if n in ("address_length", "channel", "crc") else 2 if n.endswith("_int") else 1)
     for _ in range(24 if tier == "quick" else 200):
-        seqs.append(tuple(rng.choice(cheap) for _ in range(5 if tier == "quick" else 6)))
+        while True:
+            cand = tuple(rng.choice(cheap) for _ in range(5 if tier == "quick" else 6))
+            prod = 1
+            for n in cand:
+                prod *= weight(n)
+            if prod <= (2000 if tier == "quick" else 10000):
+                break
+        seqs.append(cand)
     for s in seqs:
         out.append(Job("history", h_history, dict(calls=list(s), pre="por"), cost=len(s) ** 2, max_paths=(20000 if tier == "quick" else 40000),
                        shards=(1 if len(s) < 5 else 4 if tier == "quick" else 8)))
